@@ -22,6 +22,40 @@ pub mod runtime {
     use std::task::{Context, Poll};
     pub struct Builder;
     pub struct Runtime;
+    /// `Handle::try_current()`: Ok inside a task or `block_on`, Err on a plain thread.  The
+    /// harness that polls tasks by hand brackets each poll with `model_set_context`.
+    #[derive(Debug, Clone)]
+    pub struct Handle;
+    #[derive(Debug)]
+    pub struct TryCurrentError;
+    impl std::fmt::Display for TryCurrentError {
+        fn fmt(&self, f: &mut std::fmt::Formatter<'_>) -> std::fmt::Result {
+            f.write_str("no reactor running")
+        }
+    }
+    impl std::error::Error for TryCurrentError {}
+    static mut CONTEXT_DEPTH: u32 = 0;
+    pub fn model_set_context(enter: bool) {
+        unsafe {
+            if enter {
+                CONTEXT_DEPTH += 1;
+            } else if CONTEXT_DEPTH > 0 {
+                CONTEXT_DEPTH -= 1;
+            }
+        }
+    }
+    impl Handle {
+        pub fn try_current() -> Result<Handle, TryCurrentError> {
+            if unsafe { CONTEXT_DEPTH } > 0 {
+                Ok(Handle)
+            } else {
+                Err(TryCurrentError)
+            }
+        }
+        pub fn current() -> Handle {
+            Handle::try_current().expect("there is no reactor running, must be called from the context of a Tokio 1.x runtime")
+        }
+    }
     impl Builder {
         pub fn new_current_thread() -> Builder {
             Builder
@@ -45,8 +79,10 @@ pub mod runtime {
             let w = crate::exec::noop_waker();
             let mut cx = Context::from_waker(&w);
             let mut n = 0;
+            model_set_context(true);
             loop {
                 if let Poll::Ready(r) = f.as_mut().poll(&mut cx) {
+                    model_set_context(false);
                     return r;
                 }
                 crate::exec::blocking_env_step(n);
